@@ -22,7 +22,15 @@ Mutators that raise: only the documented ValueError / IndexError are accepted (t
 any other exception of a mutator is a failure. The save/load round trip has no documented error at all: it must succeed
 on every object, whatever ran before (its outcome is compared with the round trip of the fresh twin). A third of the
 histories holds, at a random position, a query that memoises the cell-area grid (area, upstream_area / ucat_area in a
-unit other than cells, subbasins_area, floodplains without an upstream-area map) directly followed by a round trip."""
+unit other than cells, subbasins_area, floodplains without an upstream-area map) directly followed by a round trip.
+
+Networks with loops (cells that reach no pit): arbitrary functional graphs and loop-free networks into which cycles of
+2-4 cells are wired (a cycle takes its tributaries with it). Before the repair every query may run whose work does not
+follow a path along a loop - all ordering-based ones (upstream area, basins, stream orders, accumulations, distances,
+sub-basins, ...), explicit cell orders, save/load round trips, set_transform, add_pits - traces (path, snap, add_pits
+with a stream mask) start at cells that reach a pit. repair_loops() is judged against the harness' own repaired network
+(a pit at every valid cell whose downstream walk reaches no pit, nothing else changed) and `isvalid` must hold afterwards,
+whatever ran before."""
 import copy
 import io
 import json
@@ -52,6 +60,9 @@ RULE = ("random histories (quick: length <= 12, thorough: <= 30; plus all histor
         "a mutator may only raise ValueError / IndexError, dump/load must succeed after every history (outcome compared "
         "with dump/load of the fresh twin); ~1/3 of the histories hold an area-memoising query (area, upstream_area / "
         "ucat_area with unit != cell, subbasins_area, floodplains) directly followed by dump/load; "
+        "networks with loops (functional graphs; cycles of 2-4 cells wired into loop-free networks): any loop-safe query / "
+        "mutator (everything ordering-based, explicit orders, round trips, set_transform, add_pits; traces only from cells "
+        "that reach a pit) before repair_loops, whose outcome is compared with the harness' own repaired network + isvalid; "
         "non-trivial = history with >= 1 mutator or >= 2 queries sharing a cache key; distinct = SHA-1 of "
         "(class, network, history)")
 
@@ -509,10 +520,26 @@ def apply(o, name, a):
                              f"cells {want}: cells {bad[:8]} point to {[ds1[i] for i in bad[:8]]}, expected {[exp[i] for i in bad[:8]]}")
         return "ok"
     if name == "repair_loops":
+        o.netfail = None
         before = f.idxs_ds.copy()
+        ds0 = canon_idx(before, n)
         f.repair_loops()
         if not np.array_equal(before, f.idxs_ds):
             o.order = None
+        # the harness' own repair: a pit at every valid cell whose downstream walk reaches no pit, nothing else changes
+        stuck = [i for i in range(n) if ds0[i] != n and not _walk_down(ds0, n, i)[1]]
+        exp = list(ds0)
+        for i in stuck:
+            exp[i] = i
+        _obs(f"repair_loops:{o.cls}:" + ("network-with-loops" if stuck else "loop-free-network"))
+        ds1 = canon_idx(f.idxs_ds, n)
+        if ds1 != exp:
+            bad = [i for i in range(n) if ds1[i] != exp[i]]
+            o.netfail = (f"after repair_loops the network differs from the old network with a pit at every cell that reaches no pit "
+                         f"({len(stuck)} such cells: {stuck[:8]}): cells {bad[:8]} point to {[ds1[i] for i in bad[:8]]}, "
+                         f"expected {[exp[i] for i in bad[:8]]}")
+        elif not bool(clone(f).isvalid):   # on a clone: the probe does not become part of the history
+            o.netfail = (f"after repair_loops isvalid is False (network as expected: pits at the {len(stuck)} cells that reached no pit)")
         return "ok"
     if name == "set_transform":
         f.set_transform(Affine(*a["transform"]), a["latlon"])
@@ -615,7 +642,7 @@ def run_history(spec, table=None):
                 probes.append(("upstream_area_unit", {"unit": "m2"}))
                 probes += [("georef", {}), ("basins", {"idxs": None})]
             probes += [("idxs_seq", {}), ("seq_probe", {"method": "walk"}), ("seq_probe", {"method": "sort"})]
-            if name == "add_pits" and getattr(o, "netfail", None):
+            if name in ("add_pits", "repair_loops") and getattr(o, "netfail", None):
                 return {"step": step, "op": name, "what": o.netfail}
             for pn, pa in probes:
                 g1, g2 = safe_apply(o, pn, pa), safe_apply(t, pn, pa)
@@ -691,7 +718,51 @@ STRATA = [{"cls": "vector", "area": True, "cache": False}, {"cls": "raster", "po
           {"cls": "vector", "area": True, "cache": False}, {"cls": "raster", "polar": True, "cache": True, "around": True},
           {"cls": "raster", "polar": False, "cache": True, "around": False, "memodump": True}, {"cls": "raster", "polar": True, "cache": True, "around": True},
           {"cls": "vector", "area": True, "cache": False}, {"cls": "raster", "polar": True, "cache": True, "around": True},
-          {"cls": "vector", "area": False, "cache": False}, {"cls": "raster", "polar": True, "cache": True, "around": True}]
+          {"cls": "vector", "area": False, "cache": False}, {"cls": "raster", "polar": True, "cache": True, "around": True},
+          # networks with loops: loop-safe queries / mutators, then the repair
+          {"cls": "raster", "loops": True, "cache": True, "polar": False}, {"cls": "vector", "loops": True, "cache": False},
+          {"cls": "raster", "loops": True, "cache": False}, {"cls": "vector", "loops": True, "cache": True, "area": True},
+          {"cls": "raster", "loops": True, "cache": True, "memodump": True}, {"cls": "vector", "loops": True, "cache": True, "area": False}]
+
+
+def wire_loops(rng, ds, shape):
+    """wires one or two cycles of 2-4 valid cells into a network (rasters: neighbouring cells - a pair, or three / four
+    cells of a 2x2 block; vector: any cells). Everything that drained to one of these cells now drains into the loop."""
+    n = len(ds)
+    ds = list(ds)
+    valid = [i for i in range(n) if ds[i] != n]
+    for _ in range(rng.randint(1, 2)):
+        for _try in range(30):
+            k = rng.choice([2, 2, 3, 4])
+            if len(shape) == 2 and min(shape) >= 2:
+                nrow, ncol = shape
+                r, c = rng.randint(0, nrow - 2), rng.randint(0, ncol - 2)
+                block = [r * ncol + c, r * ncol + c + 1, (r + 1) * ncol + c + 1, (r + 1) * ncol + c]   # cyclic order
+                at = rng.randint(0, 3)
+                cyc = [block[(at + j) % 4] for j in range(k)]
+                if k == 2 and rng.random() < 0.3:
+                    cyc = [block[at], block[(at + 2) % 4]]   # diagonal pair
+                if rng.random() < 0.5:
+                    cyc.reverse()
+            elif len(shape) == 2:
+                i = rng.randint(0, n - 2)   # single row / column: two adjacent cells
+                cyc = [i, i + 1]
+            else:
+                cyc = rng.sample(valid, min(k, len(valid)))
+            if len(cyc) >= 2 and all(ds[i] != n for i in cyc):
+                for j, i in enumerate(cyc):
+                    ds[i] = cyc[(j + 1) % len(cyc)]
+                break
+    return ds
+
+
+# what may run on a network with loops before the repair (see gen_spec)
+LOOP_SAFE_VECTOR = ["upstream_area", "upstream_area", "idxs_seq", "accuflux", "accuflux", "stream_order", "idxs_us_main", "main_upstream",
+                    "fillnodata", "downstream", "upstream_sum", "moving_average", "dem_adjust", "area", "distnc", "path",
+                    "order_cells", "order_cells", "dumpload", "dumpload", "add_pits"]
+LOOP_SAFE_RASTER = LOOP_SAFE_VECTOR + ["basins", "basins", "subbasins_streamorder", "subbasins_area", "upstream_area_unit",
+                                       "stream_distance", "snap", "hand", "streams", "outflow_idxs", "subgrid_rivlen", "ucat_area",
+                                       "to_array_nextxy", "subbasins_pfafstetter", "floodplains", "set_transform"]
 
 
 def gen_spec(rng, tier, maxlen, force=None):
@@ -704,6 +775,8 @@ def gen_spec(rng, tier, maxlen, force=None):
         ds = gen_forest(rng, n) if rng.random() < 0.75 else gen_funcgraph(rng, n)
         shape, fam = (n,), "vector"
     n = len(ds)
+    if force.get("loops", rng.random() < 0.1) and not has_loops(ds):
+        ds, fam = wire_loops(rng, ds, shape), fam + "+loops"
     if not any(ds[i] == i for i in range(n)):
         ds[next(i for i in range(n) if ds[i] != n)] = next(i for i in range(n) if ds[i] != n)
     valid = [i for i in range(n) if ds[i] != n]
@@ -755,9 +828,20 @@ def gen_spec(rng, tier, maxlen, force=None):
     ops = []
     if has_loops(ds):
         # traces on networks with loops are outside the documented domain (they need not end): only
-        # loop-safe queries may precede the repair
-        for _ in range(rng.randint(0, 3)):
-            ops.append((rng.choice(["rank", "isvalid", "nnodes", "idxs_pit", "n_upstream", "idxs_seq"]), {}))
+        # loop-safe queries may precede the repair. Loop-safe is everything whose work does not follow a path along a
+        # loop: all queries that go through the ordered cells (these only hold cells that reach a pit, and nothing
+        # that reaches a pit drains into a loop), local ones, explicit orders, round trips, set_transform, add_pits;
+        # traces (path / snap / add_pits with a stream mask) when they start at cells that reach a pit (up- and
+        # downstream of such a cell there are only cells that reach a pit).
+        reach = [i for i in valid if _walk_down(ds, n, i)[1]]
+        for _ in range(rng.randint(1 if force.get("loops") else 0, 4)):
+            if rng.random() < 0.25:
+                ops.append((rng.choice(["rank", "isvalid", "nnodes", "idxs_pit", "n_upstream", "idxs_seq"]), {}))
+                continue
+            q = draw(rng.choice(LOOP_SAFE_RASTER if cls == "raster" else LOOP_SAFE_VECTOR))
+            if q[0] in ("path", "snap") or (q[0] == "add_pits" and q[1].get("streams") is not None):
+                q[1]["idxs"] = [rng.choice(reach) for _ in q[1]["idxs"]]
+            ops.append(q)
         ops.append(("repair_loops", {}))
     nrand = rng.randint(2, maxlen)
     if cls == "raster" and force.get("around", rng.random() < (0.5 if spec["latlon"] else 0.2)):
@@ -862,6 +946,16 @@ def run(ctx):
             if ops[k + 1][0] == "dumpload" and (x in ("area", "subbasins_area") or (x == "floodplains" and xa["uparea"] is None) or (
                     x in ("upstream_area_unit", "ucat_area") and xa["unit"] != "cell") or (x == "upstream_area" and spec["cls"] == "vector")):
                 ctx.count(f"area-memoiser-then-dumpload:{spec['cls']}:cache={spec['cache']}")
+        if has_loops(spec["ds"]):
+            ctx.count("feature:network-with-loops:" + spec["cls"] + ":" + ("cycles wired into a loop-free network" if str(spec.get("family", "")).endswith("+loops")
+                                                                         else "functional graph / corpus"))
+            if "repair_loops" in names:
+                pre = names[:names.index("repair_loops")]
+                for x in pre:
+                    ctx.count("feature:loops:before-first-repair:" + x)
+                ordering = [x for x in pre if x not in ("rank", "isvalid", "nnodes", "idxs_pit", "n_upstream", "area", "downstream", "set_transform", "add_pits")]
+                ctx.count("feature:loops:first-repair-preceded-by:" + ("ordering-based query / explicit order / round trip" if ordering
+                                                                       else "other calls only" if pre else "nothing"))
         for x, xa in ops:
             if x == "add_pits":
                 ctx.count("add_pits:" + ("xy" if xa.get("by") == "xy" else "idxs") + ("+streams" if xa.get("streams") is not None else ""))
